@@ -214,7 +214,7 @@ fn run(ctx: &mut Ctx) {
             let a = val::avp_kind(&mut ctx.rng, (ctx.idx % 39) as usize, 40);
             let plen = senc::payload(&a).len();
             // plaintext length (before alignment padding) = 16*(blocks-1) + 1..16
-            let target = 16 * (blocks - 1) + if colossal { *ctx.rng.pick(&[1usize, 1, 2, 15, 16]) } else { 1 + ctx.rng.below(16) as usize };
+            let target = 16 * (blocks - 1) + if colossal { [1usize, 2, 15, 16][((ctx.idx / 16) % 4) as usize] } else { 1 + ctx.rng.below(16) as usize };
             let lp = ctx.rng.bytes(target - 2 - plen);
             let mut ap = [0u8; 16];
             ap.copy_from_slice(&ctx.rng.bytes(16));
